@@ -13,7 +13,7 @@ from vlib import Inconclusive, log
 # predicate names of RolloutsProps.tla that decide each listed property
 NAMES = {
     "C01": ["C01a", "C01ro", "C01b", "C01c"],
-    "C02": ["C02", "C02pause", "C02promote"],
+    "C02": ["C02", "C02pause", "C02promote", "C02edit"],
     "C03": ["C03a", "C03b", "C03c"],
     "C04": ["C04a", "C04b", "C04c"],
     "C05": ["C05"],
@@ -37,7 +37,7 @@ def _cfgs(prop, tier):
 PROPS = set(NAMES.keys())
 
 # function-level drivers that decide a part of a closed-loop property (lib/fn/<name>.json)
-EXTRA_FN = {"C01": ["arith"], "C07": ["arith", "gateway", "ingress", "custom"]}
+EXTRA_FN = {"C01": ["arith"], "C07": ["arith", "gateway", "ingress", "custom"], "C09": ["validate"]}
 # predicates of those drivers that belong to the closed-loop property (None = the descriptor's own list)
 EXTRA_FN_NAMES = {("C07", "arith"): ["A_sufficient"], ("C07", "gateway"): ["G5"], ("C07", "ingress"): ["I5"], ("C07", "custom"): ["N4"]}
 
